@@ -977,11 +977,19 @@ class SgzReader(object):
         header = self.segy_traceheader_template.copy()
         values_read = {}  # Fields recorded as duplicates share one stored array: fetch each value only once
 
+        # Header arrays already loaded with their padding stay in that mode: the header of
+        # the i-th trace is then found at that trace's position on the grid
+        padded = bool(self.include_padding)
+        position = index
+        if padded and self.is_3d and not self.structured:
+            self.get_unstructured_mask()
+            position = np.flatnonzero(self.mask)[index]
+
         for k, v in header.items():
             if isinstance(v, FileOffset):
                 if load_all_headers or not self.structured:
-                    self.read_variant_headers()
-                    header[k] = self.variant_headers[k][index]
+                    self.read_variant_headers(include_padding=padded)
+                    header[k] = self.variant_headers[k][position]
                 else:
                     if v not in values_read:
                         buf = self.file.read_range(self.file, v + 4*index, 4)  # A 32-bit int is 4 bytes
